@@ -1,6 +1,6 @@
 (* C17 — pinned statements. Nothing but statements, [exact] and Print Assumptions. *)
 From Coq Require Import List NArith Bool.
-From MV Require Import C17.Model C17.Spec C17.Proofs.
+From MV Require Import C17.Model C17.Spec C17.Proofs C17.Race C17.RaceProofs.
 Import ListNotations.
 Local Open Scope N_scope.
 
@@ -90,6 +90,27 @@ Theorem c17_restore_attach_handle : forall s c0 h x, reach s -> nth_error (handl
 Proof. exact restore_handle. Qed.
 Print Assumptions c17_restore_attach_handle.
 
+(* Appends racing a detach, for every schedule of the atomic actions (any number of appender threads, with or
+   without a thread-local test sink, one detaching thread): the attached sink is joined at most once, nothing
+   is delivered to it after its join, every finished append was delivered exactly once to the right sink or
+   handed back and delivered nowhere - never lost, never duplicated. *)
+Theorem c17_detach_race : forall d es ls,
+  NoDup (map fst es) -> (forall e t, In (e, Some t) es -> t <> d) ->
+  let s := rexec (rinit0 d es) ls in
+  race_ok d (outcomes_of d s) (rlog s) = true.
+Proof. exact race_all_schedules. Qed.
+Print Assumptions c17_detach_race.
+
+(* ... and which of the two it is is decided by the order of lock acquisitions: an append that took the read
+   lock before the detacher took the write lock is delivered, one that took it after is handed back. *)
+Theorem c17_detach_linearisation : forall d es ls i a,
+  NoDup (map fst es) -> (forall e t, In (e, Some t) es -> t <> d) ->
+  let s := rexec (rinit0 d es) ls in
+  nth_error (aps s) i = Some a -> a_tl a = None ->
+  (a_pc a = AOk -> before_d i (acq s)) /\ (a_pc a = AErr -> after_d i (acq s)).
+Proof. exact race_linearisation. Qed.
+Print Assumptions c17_detach_linearisation.
+
 (* ---- non-vacuity ---- *)
 Definition t0 := mk_ctx 0 None.
 Definition t1r0 := mk_ctx 1 (Some 0).
@@ -109,3 +130,10 @@ Proof. vm_compute. reflexivity. Qed.
 Example c17_example_reach : reach (fst (run init [Attach 0 t0 1; SetTL 0 t0 2])) /\
   nth_error (tlg (fst (run init [Attach 0 t0 1; SetTL 0 t0 2]))) 0 = Some (mk_ent 0 0 2 true true).
 Proof. split; [exists [Attach 0 t0 1; SetTL 0 t0 2]; reflexivity | vm_compute; reflexivity]. Qed.
+
+(* a schedule in which one append gets in before the detach and one after; a third thread has a test sink *)
+Example c17_example_race :
+  let s := rexec (rinit0 1 [(10, None); (11, None); (12, Some 2)])
+                 [WA 0; WD; WA 0; WA 0; WA 2; WD; WA 0; WD; WD; WA 1; WD; WD; WA 1; WA 1; WA 1] in
+  map a_pc (aps s) = [AOk; AErr; AOk] /\ rlog s = [Recv 1 10; Recv 2 12; Joined 1] /\ acq s = [WA 0; WD; WA 1].
+Proof. vm_compute. repeat split; reflexivity. Qed.
